@@ -144,30 +144,20 @@ def mulTerm (l r : Mono) : Mono :=
 def imul (p q : Poly) : Poly :=
   p.foldl (fun acc l => q.foldl (fun acc2 r => sumRule acc2 (mulTerm l r)) acc) []
 
-/-- `__iadd__` with a BinaryPolynomial that is a different object -/
+/-- `__iadd__` with a BinaryPolynomial: iterates over a snapshot `list(addend.terms)`, so the
+addend may be the target itself -/
 def iadd (p q : Poly) : Poly := q.foldl sumRule p
 
 /-- `__iadd__` with an integer -/
 def iaddInt (p : Poly) (k : Int) : Poly := if k % 2 != 0 then addOne p else p
-
-/-- `a += a`: Python iterates over `addend.terms` *while* `binary_sum_rule` mutates the
-same list (list iterator = running index) -/
-def iaddAliasGo : Nat → Poly → Nat → Poly
-  | 0, terms, _ => terms
-  | fuel + 1, terms, i =>
-    match terms[i]? with
-    | none => terms
-    | some t => iaddAliasGo fuel (sumRule terms t) (i + 1)
-
-def iaddAlias (p : Poly) : Poly := iaddAliasGo (p.length + 1) p 0
 
 /-- `__pow__` for a non-negative exponent: `identity()` = `BinaryPolynomial([('one',)])` -/
 def pow (p : Poly) (k : Nat) : Poly := if k = 0 then [[none]] else p
 
 /-! ### programs over BinaryPolynomial objects (variables reference objects)
 
-`p ** k` with `k ≠ 0` returns `self` (the *same* object), `p *= even` returns a fresh zero
-object, every other out-of-place operator works on a `copy.deepcopy`. -/
+`p *= even` returns a fresh zero object (rebinding the variable), every out-of-place operator
+(including `p ** k`) works on a `copy.deepcopy`; in-place operators mutate the object. -/
 
 structure PStore where
   vars : List (Option Nat)
@@ -223,12 +213,12 @@ def PStore.exec (s : PStore) : PStmt → POut
   | .muli x y k => match s.val? y with
     | some a => .store (s.bindNew x (imulInt a k))
     | none => .unbound
-  | .pow x y k => match s.id? y with
-    | some i => if k = 0 then .store (s.bindNew x (pow [] 0)) else .store ⟨s.vars.set x (some i), s.objs⟩
+  | .pow x y k => match s.val? y with
+    | some a => .store (s.bindNew x (pow a k))
     | none => .unbound
   | .iadd x y => match s.id? x, s.id? y, s.val? x, s.val? y with
     | some i, some j, some a, some b =>
-      if i = j then .store (s.setObj i (iaddAlias a)) else .store (s.setObj i (iadd a b))
+      if i = j then .store (s.setObj i (iadd a a)) else .store (s.setObj i (iadd a b))
     | _, _, _, _ => .unbound
   | .imul x y => match s.id? x, s.val? x, s.val? y with
     | some i, some a, some b => .store (s.setObj i (imul a b))
@@ -252,8 +242,9 @@ def PStore.exec (s : PStore) : PStmt → POut
 
 abbrev Mat := List (List Nat)
 
-/-- a decoder component: a BinaryPolynomial, or the Python `int` 0 that
-`double_decoding` leaves for a component without terms -/
+/-- a decoder component: a BinaryPolynomial (`int0`, the Python `int` 0 that `double_decoding`
+used to leave for a component without terms, is no longer produced since the fix a441cb87; it
+stands for a non-polynomial entry and every operation on it raises) -/
 inductive DEntry
   | poly (p : Poly)
   | int0
@@ -303,8 +294,7 @@ def ddTerm (d2 : List DEntry) (summand : Mono) : Except Err Poly :=
     | some (DEntry.poly q) => Except.ok (imul tmp q)
     | some DEntry.int0 => Except.ok (imulInt tmp 0)) ([[none]] : Poly)
 
-/-- `double_decoding(decoder_1, decoder_2)`; `tmp_sum` starts as the int 0 and stays an
-int when the entry has no terms -/
+/-- `double_decoding(decoder_1, decoder_2)`; `tmp_sum` starts as `BinaryPolynomial()` -/
 def doubleDecoding (d1 d2 : List DEntry) : Except Err (List DEntry) :=
   d1.mapM fun e => match e with
     | .int0 => .error .attributeError                 -- `entry.terms` of an int
@@ -312,7 +302,7 @@ def doubleDecoding (d1 d2 : List DEntry) : Except Err (List DEntry) :=
       p.foldlM (fun (acc : DEntry) summand => do
         let t ← ddTerm d2 summand
         -- tmp_sum = tmp_term + tmp_sum
-        pure (DEntry.poly (iadd t acc.toPoly))) DEntry.int0
+        pure (DEntry.poly (iadd t acc.toPoly))) (DEntry.poly [])
 
 /-- `scipy.sparse.bmat([[A, None], [None, B]])` -/
 def blockDiag (A : Mat) (an : Nat) (B : Mat) (bn : Nat) : Mat :=
@@ -397,26 +387,15 @@ def jordanWignerCode (n : Nat) : Except Err Code := do
 def bravyiKitaevCode (n : Nat) : Except Err Code := do
   Code.mk' (encoderBk n) n n (← linearizeDecoder (decoderBk n))
 
-/-- the flat list reshaped by `parity_code`:
-`[1] + [0]*(n-1) + ([1,1] + (n-1)*[0])*(n-2) + [1,1]` (Python list repetition with a
-non-positive count gives `[]`) -/
-def parityFlat (n : Nat) : List Nat :=
-  ([1] ++ zeros (n - 1)) ++ (List.replicate (n - 2) ([1, 1] ++ zeros (n - 1))).flatten ++ [1, 1]
-
-def chunks : Nat → Nat → List Nat → Mat
-  | 0, _, _ => []
-  | k + 1, w, l => l.take w :: chunks k w (l.drop w)
-
-/-- `numpy.reshape(flat, (n, n))`: ValueError unless the sizes agree -/
-def reshapeSq (flat : List Nat) (n : Nat) : Except Err Mat :=
-  if flat.length != n * n then .error .valueError else .ok (chunks n n flat)
+/-- `numpy.eye(n, dtype=int) + numpy.eye(n, k=-1, dtype=int)`: the decoder matrix of `parity_code` -/
+def parityDec (n : Nat) : Mat :=
+  (List.range n).map fun i => (List.range n).map fun j => if i = j ∨ i = j + 1 then 1 else 0
 
 def tril (n : Nat) : Mat :=
   (List.range n).map fun i => (List.range n).map fun j => if j ≤ i then 1 else 0
 
 def parityCode (n : Nat) : Except Err Code := do
-  let decM ← reshapeSq (parityFlat n) n
-  Code.mk' (tril n) n n (← linearizeDecoder decM)
+  Code.mk' (tril n) n n (← linearizeDecoder (parityDec n))
 
 /-- `_encoder_checksum(modes)` -/
 def encoderChecksum (modes : Nat) : Mat :=
